@@ -77,6 +77,9 @@ def IoKind.name : IoKind → String
   | .timedOut => "TimedOut" | .brokenPipe => "BrokenPipe" | .wouldBlock => "WouldBlock"
   | .other => "Other" | .writeZero => "WriteZero" | .invalidData => "InvalidData"
   | .connectionAborted => "ConnectionAborted" | .notConnected => "NotConnected"
+  | .interrupted => "Interrupted" | .permissionDenied => "PermissionDenied"
+  | .connectionRefused => "ConnectionRefused" | .invalidInput => "InvalidInput"
+  | .notFound => "NotFound" | .outOfMemory => "OutOfMemory"
 
 def IoKind.ofName? : String → Option IoKind
   | "UnexpectedEof" => some .unexpectedEof | "ConnectionReset" => some .connectionReset
@@ -84,6 +87,9 @@ def IoKind.ofName? : String → Option IoKind
   | "WouldBlock" => some .wouldBlock | "Other" => some .other
   | "WriteZero" => some .writeZero | "InvalidData" => some .invalidData
   | "ConnectionAborted" => some .connectionAborted | "NotConnected" => some .notConnected
+  | "Interrupted" => some .interrupted | "PermissionDenied" => some .permissionDenied
+  | "ConnectionRefused" => some .connectionRefused | "InvalidInput" => some .invalidInput
+  | "NotFound" => some .notFound | "OutOfMemory" => some .outOfMemory
   | _ => none
 
 def Protocol.name : Protocol → String
